@@ -28,7 +28,8 @@ REGEX_ALPHABETS = ["/*\\\n a", "/*\\\n a\"#1", "/* \n", "/\\\n", "/*a\n\\ */"]
 WORD_ALPHABET = "ab_Z09 \t\n\r\f\v;,(){}*[]#.\\/-+<>"
 PRE_FRAGS = ["#", "define", "line", " ", " ", "\t", "\n", "\n", "\\\n", "X", "Y1", "_a", "1", "0x1f", "/*", "*/",
              "//", "\\", "#line@", "0", "12", "\"f.h\"", ";", "i", "@", "\r", "\f", "#define X 1", "# 7 \"a//b\"",
-             "#line@0", "/**/", "lines", "5a", "\n#"]
+             "#line@0", "/**/", "lines", "5a", "\n#", "#line@-1", "#line@ +1 ", "#line@1_0", "#line@0_", "#line@+", "_", "+", "-",
+             "/*\n*/#line@"]
 
 
 def gen_regex_cases(ctx):
@@ -661,7 +662,7 @@ def evaluate(ctx, cases):
                     ctx.nontrivial(("words", t))
             else:
                 if r["exc"]:
-                    code = {"CDefError": 4}.get(r["exc"], 7)
+                    code = {"CDefError": 4, "AssertionError": 1, "IndexError": 2, "ValueError": 3}.get(r["exc"], 7)
                     exp = cpair(cn(code), cpair("(@nil N)", NILM))
                 else:
                     ms = "[" + "; ".join(cpair(text_of(k), text_of(v)) for k, v in r["macros"]) + "]" if r["macros"] else NILM
@@ -671,10 +672,7 @@ def evaluate(ctx, cases):
                 if r["exc"] or r["macros"] or r["text"] != t:
                     ctx.nontrivial(("pre", t))
             pairs.append((inp, exp))
-        # model outcome 9 = "int() on something that is not [0-9]+" (CDefError, or Python's laxer int() grammar succeeds):
-        # any outcome of the implementation is accepted
-        eqb = ("(fun m e => if N.eqb (fst m) 9 then true else "
-               "pair_eqb N.eqb (pair_eqb (list_eqb N.eqb) (list_eqb (pair_eqb (list_eqb N.eqb) (list_eqb N.eqb)))) m e)")
+        eqb = "pair_eqb N.eqb (pair_eqb (list_eqb N.eqb) (list_eqb (pair_eqb (list_eqb N.eqb) (list_eqb N.eqb))))"
         bad, outs, err = vlib.coq_mismatches(["C31.Model"], "corr_eval", eqb, pairs, shard=500)
         if err:
             ctx.obligation_broken("C31 model evaluation", err)
